@@ -207,6 +207,36 @@ def unbox(types, iv, t, st=None):
     return Val(t, lv)
 
 
+def strkey(v, st=None):
+    """abstract value of a byte sequence (what a string-keyed map or an uninterpreted
+    specification function sees of it): a function of length and content"""
+    f = ops.uf('strkey', z3.ArraySort(I, I), I, I)
+    if st is not None:
+        st.assume(strkey_axiom())
+    return f(v.lv[('s',)], v.lv[('n',)])
+
+
+_STRKEY_AX = []
+
+
+def strkey_axiom():
+    """extensionality of strkey with an explicit difference witness: sequences with different
+    abstract values differ in length or at some index below it (instances arise for pairs of
+    strkey terms only and create no new ones)"""
+    if not _STRKEY_AX:
+        A = z3.ArraySort(I, I)
+        f = ops.uf('strkey', A, I, I)
+        d = ops.uf('strdiff', A, A, I, I)
+        a, b = z3.Const('sk_a', A), z3.Const('sk_b', A)
+        n, m = z3.Int('sk_n'), z3.Int('sk_m')
+        w = d(a, b, n)
+        _STRKEY_AX.append(z3.ForAll([a, n, b, m],
+                                    z3.Implies(z3.And(n == m, f(a, n) != f(b, m)),
+                                               z3.And(w >= 0, w < n, z3.Select(a, w) != z3.Select(b, w))),
+                                    patterns=[z3.MultiPattern(f(a, n), f(b, m))]))
+    return _STRKEY_AX[0]
+
+
 def key_term(types, v, st=None):
     """canonical Int key of a value used as a map key"""
     if v.t == '$key':
@@ -220,8 +250,7 @@ def key_term(types, v, st=None):
     if args is None:
         # strings etc.: congruence only
         if k == 'string':
-            f = ops.uf('strkey', z3.ArraySort(I, I), I, I)
-            return f(v.lv[('s',)], v.lv[('n',)])
+            return strkey(v, st)
         raise OutOfSubset('map key of kind ' + k)
     name = 'pack_%d' % types.typeid(types.under(v.t))
     f = ops.uf(name, *([I] * len(args) + [I]))
